@@ -16,6 +16,7 @@ MODEL_FAMILIES = ["string", "key", "list", "hash", "zset", "set", "stream"]
 
 def make_cases(tier, seed):
     cases = gen_ttl.gen_timer(seed, MODEL_TYPES)
+    cases += gen_ttl.gen_boundary(seed, tier)
     cases += gen_ttl.gen_crossdb(seed, tier, MODEL_TYPES)
     cases += gen_ttl.gen_matrix(seed, tier, MODEL_TYPES, MODEL_FAMILIES)
     cases += gen_ttl.gen_random(seed, 2000 if tier == "quick" else 60000, MODEL_TYPES)
@@ -45,7 +46,11 @@ def run(ctx):
              "string/key/list/hash/zset/set/stream reads and writes incl. SUNION/SINTER/SDIFF(STORE), SMOVE, SPOP, XADD, XRANGE, MGET, DEL, EXISTS, RENAME, LMOVE, BLPOP, KEYS, HRANDFIELD, ZADD options; quick: own-family + key-command probes + 10 sampled foreign probes, one seeded clock phase; thorough: all probes, six phases), "
              "dump after attach, after the probe and after TTL/TYPE/EXISTS; (b) timer scenarios (re-created/extended/persisted/"
              "renamed keys vs the old timer, 3 s after the deadline); (c) seeded random TTL-heavy programs with sleeps around "
-             "second boundaries; (c2) cross-database slice: the same key name in databases 0, 1, 2 (one connection per database) with different "
+             "second boundaries; (c3) numeric boundaries: SET EX / PX / PX+GET / EXAT / PXAT, SETEX, PSETEX, GETEX, EXPIRE x {none,NX,XX,GT,LT} x {no, existing} "
+             "deadline, PEXPIRE, EXPIREAT (commands the server does not have are errors on both sides) x values 0, 1, 999..2001, negative, 2^31+-1, "
+             "2^32+-1, 2^53+-1, 9223372036(000)+-1, 9223372036854775+-1, 10^13, 2^62, MaxInt64-1/+0/+1, MinInt64-1/+0, MaxInt64-now-1/+0/+1/+2 "
+             "(memx token @X), absolute now-1000..now+1000 (@T) -- then TTL, GET, EXISTS, dump, and again after 1.001 s and 2.002 s; "
+             "(c2) cross-database slice: the same key name in databases 0, 1, 2 (one connection per database) with different "
              "value types and different / no deadlines, a way of attaching/removing a deadline in one database, TTL/read/TYPE/EXISTS of the key in "
              "all three around a candidate deadline and 3 s later, dumps of all databases (quick: 6 type pairs x 18 ways x 2 offsets; thorough: "
              "all type pairs x all ways x {no, 2, 5} victim deadline x 5 offsets); thorough: (d) real-clock TCP sample, TTL 1-2 s, either second accepted for a step that straddles a boundary",
